@@ -107,6 +107,17 @@ PROPS = {
         ],
         "assumptions": ["the three callers (DecodeAuthNRequest, DecodeLogoutRequest via the SSO/logout form readers) reach the inflater only through InflateAndDecode (fingerprinted)"],
     },
+    "C17": {
+        "modules": ["SamlModel.Props.C17"],
+        "translated": [],
+        "trusted_base": COMMON_TRUST + [
+            "html/template is not translated: its three escapers that act on the page (attrEscaper, urlFilter, urlNormalizer) and the splice of literal segments and escaped values are hand-modelled byte-exactly in Lib.Html / Lib.HtmlTok.page; the model is compared on every run with the bytes html/template writes for the library's own template constants and with the bodies the real callback, SSO-error and logout handlers send (`lib page`)",
+            "the literal segments and the hole list are read from pkg/provider/template.go by go2lean on every run (Gen.Facts.postTemplateLit*, logoutTemplateLit*); the package that parses them and the Go types of the substituted fields are extracted facts (escaping_on)",
+            "the HTML tokenizer the theorems speak about (Lib.HtmlTok.step, newline normalisation, attribute-value character references) is a slice of the WHATWG tokenizer written from the specification; it is compared with golang.org/x/net/html on every rendered page in both scripting modes (`lib tok`); comments containing '>', CDATA, script-data escapes and <plaintext> are not modelled (none occurs in the templates, and no substituted byte can open a tag: C17_no_delimiter)",
+            "IdentityProviderConfig.PostTemplate / LogoutTemplate (templates supplied by the embedding application) are configuration, outside the property",
+        ],
+        "assumptions": ["a browser tokenises the page as the WHATWG tokenizer does; tree construction (foster parenting, implied end tags) is not modelled - the page theorem fixes the complete token stream, from which exactly one form with two hidden inputs follows for any conformant tree builder"],
+    },
     "C19": {
         "modules": ["SamlModel.Props.C19"],
         "translated": ["ValidateIssuer", "ValidateIssuerPath", "devLocalAllowed", "hasQueryOrFragment", "dynamicIssuer"],
